@@ -2,6 +2,7 @@ package an
 
 import (
 	"go/token"
+	"go/types"
 
 	"golang.org/x/tools/go/ssa"
 )
@@ -25,7 +26,8 @@ func evalInt(v ssa.Value, atom func(ssa.Value) (int64, bool), depth int) (int64,
 	}
 	switch x := v.(type) {
 	case *ssa.Convert:
-		return evalInt(x.X, atom, depth+1)
+		a, ok := evalInt(x.X, atom, depth+1)
+		return wrapTo(a, x.Type()), ok
 	case *ssa.ChangeType:
 		return evalInt(x.X, atom, depth+1)
 	case *ssa.UnOp:
@@ -41,11 +43,11 @@ func evalInt(v ssa.Value, atom func(ssa.Value) (int64, bool), depth int) (int64,
 		}
 		switch x.Op {
 		case token.ADD:
-			return a + b, true
+			return wrapTo(a+b, x.Type()), true
 		case token.SUB:
-			return a - b, true
+			return wrapTo(a-b, x.Type()), true
 		case token.MUL:
-			return a * b, true
+			return wrapTo(a*b, x.Type()), true
 		case token.QUO:
 			if b == 0 {
 				return 0, false
@@ -71,6 +73,30 @@ func evalInt(v ssa.Value, atom func(ssa.Value) (int64, bool), depth int) (int64,
 		}
 	}
 	return 0, false
+}
+
+// wrapTo truncates to the width of a fixed-size integer type (two's complement), so that int32 arithmetic on
+// wire values overflows as it does in the program.  int / int64 are left alone (64-bit int assumed).
+func wrapTo(v int64, t types.Type) int64 {
+	b, ok := t.Underlying().(*types.Basic)
+	if !ok {
+		return v
+	}
+	switch b.Kind() {
+	case types.Int8:
+		return int64(int8(v))
+	case types.Int16:
+		return int64(int16(v))
+	case types.Int32:
+		return int64(int32(v))
+	case types.Uint8:
+		return int64(uint8(v))
+	case types.Uint16:
+		return int64(uint16(v))
+	case types.Uint32:
+		return int64(uint32(v))
+	}
+	return v
 }
 
 // EvalCond evaluates a comparison over EvalInt operands.
